@@ -48,8 +48,6 @@ def provn_filter(doc):
                 names.append(v[1])
             if v[0] == "lit" and v[2]:
                 names.append(v[2])
-            if v[0] in ("str", "lit") and "\r" in v[1]:
-                return "N2-carriage-return"
     for n in names:
         l = local_of(n)
         if not LOCAL_OK.match(l) or l.endswith(".") or l.startswith("-"):
